@@ -205,8 +205,9 @@ def aggregation_is_flushed(ctx):
     ctx.need(n >= 3, f'only {n} _get_progress_callbacks uses')
     f = ctx.func('upload.UploadInputManager._get_close_callbacks')
     rets = [x.value for x in own_nodes(f.node) if isinstance(x, ast.Return)]
-    ok = len(rets) == 1 and isinstance(rets[0], ast.ListComp) and len(rets[0].generators) == 1 and norm(rets[0].generators[0].iter) == f.params[1] \
-        and not rets[0].generators[0].ifs and isinstance(rets[0].elt, ast.Attribute) and rets[0].elt.attr == 'flush' and norm(rets[0].elt.value) == norm(rets[0].generators[0].target)
+    bl = q.built_list(f, rets[0].id) if len(rets) == 1 and isinstance(rets[0], ast.Name) else None
+    ok = bl is not None and norm(bl[0].iter) == f.params[1] and not bl[2] and isinstance(bl[1], ast.Attribute) and bl[1].attr == 'flush' \
+        and norm(bl[1].value) == norm(bl[0].target)
     ctx.ob(f, 'close callbacks = [callback.flush for callback in aggregated_progress_callbacks]', ok, f'{[norm(r) for r in rets]}')
     f = ctx.func('upload.UploadInputManager._get_progress_callbacks')
     rets = [x for x in own_nodes(f.node) if isinstance(x, ast.Return)]
